@@ -208,4 +208,215 @@ theorem get?_mergeFVal_nil (S : Schema) (d : MsgD) (f : Field) (fv : FVal)
       rw [mergeVal_scalar _ _ _ _ _ rfl, get?_setSingular]
       simp only [if_true, hp, Bool.false_eq_true, if_false]; rfl
 
+/-! ### cloning a field list -/
+
+theorem mergeOK_of_pwfFields {S : Schema} {d : MsgD} {fs : Fields} (h : pwfFields S d fs = true) :
+    mergeOK d fs = true := by
+  induction fs using Fields.ind with
+  | nil => rfl
+  | cons n fv tl ih =>
+    rw [pwfFields, Bool.and_eq_true, Bool.and_eq_true, Bool.and_eq_true] at h
+    rw [mergeOK, Bool.and_eq_true, Bool.and_eq_true]
+    exact ⟨⟨h.1.1.2, h.1.2⟩, ih h.2⟩
+
+theorem pwfFields_get {S : Schema} {d : MsgD} {fs : Fields} (h : pwfFields S d fs = true)
+    {n : Nat} {fv : FVal} (hg : fs.get? n = some fv) : ∃ f, d.find n = some f ∧ pwfFVal S f fv = true := by
+  induction fs using Fields.ind with
+  | nil => simp [Fields.get?] at hg
+  | cons m x tl ih =>
+    rw [pwfFields, Bool.and_eq_true, Bool.and_eq_true, Bool.and_eq_true] at h
+    rw [Fields.get?_cons] at hg
+    split at hg
+    · rename_i hm; subst hm; cases hg
+      have h1 := h.1.1.1
+      split at h1
+      · rename_i f hf; exact ⟨f, hf, h1⟩
+      · cases h1
+    · exact ih h.2 hg
+
+theorem pwfEntries_cons_msg {S : Schema} {ei : Nat} {v : Val} {tl : Vals}
+    (h : pwfEntries S ei (.cons v tl) = true) :
+    ∃ e k, v = .msg e ∧ entryKey e = some k ∧ k.isKey = true ∧ lookupEntry tl k = none ∧
+      pwfMsg S ei e = true ∧ pwfEntries S ei tl = true := by
+  rw [pwfEntries, Bool.and_eq_true] at h
+  have h1 := h.1
+  cases v with
+  | msg e =>
+    rw [pwfEntry, Bool.and_eq_true] at h1
+    have h2 := h1.1
+    split at h2
+    · rename_i k hk
+      rw [Bool.and_eq_true] at h2
+      refine ⟨e, k, rfl, hk, h2.1, ?_, h1.2, h.2⟩
+      cases hl : lookupEntry tl k with
+      | none => rfl
+      | some _ => rw [hl] at h2; simp at h2
+    · cases h2
+  | num n => simp [pwfEntry] at h1
+  | bytes b => simp [pwfEntry] at h1
+
+theorem popFVal_of_pwf {S : Schema} {f : Field} {fv : FVal} (h : pwfFVal S f fv = true) :
+    popFVal S f fv = true := by
+  cases fv with
+  | one v => rw [pwfFVal, Bool.and_eq_true] at h; exact h.2
+  | many vs =>
+    rw [pwfFVal, Bool.and_eq_true] at h
+    simp only [popFVal]
+    by_cases hm : f.card = .map
+    · simp only [hm, if_true] at h ⊢
+      cases vs with
+      | nil => simp [Vals.isNil] at h
+      | cons v tl =>
+        obtain ⟨e, k, rfl, hk, _, _, _, _⟩ := pwfEntries_cons_msg h.2
+        rw [mergeMapVals_cons_msg S _ _ e tl k hk, mergeMapVals_not_nil S _ tl _ (mapPut_not_nil _ _ _)]
+        rfl
+    · simp only [hm, if_false]
+      exact h.1
+
+/-- `clone` as a finite map: every populated declared field holds its cloned value -/
+theorem get?_cloneFields (S : Schema) (d : MsgD) (fs : Fields) (h : pwfFields S d fs = true) (j : Nat) :
+    (mergeFields S d .nil fs).get? j =
+      match fs.get? j, d.find j with
+      | some fv, some f => some (cloneFVal S f fv)
+      | _, _ => none := by
+  rw [mergeFields_get? S d fs .nil (mergeOK_of_pwfFields h) j]
+  cases hg : fs.get? j with
+  | none => simp [Fields.get?]
+  | some fv =>
+    obtain ⟨f, hf, hw⟩ := pwfFields_get h hg
+    simp only [hf]
+    have hn := MsgD.find_num hf
+    have := get?_mergeFVal_nil S d f fv (popFVal_of_pwf hw)
+    rw [hn] at this
+    exact this
+
+theorem nums_cloneFields_length (S : Schema) (d : MsgD) (fs : Fields) (h : pwfFields S d fs = true) :
+    (mergeFields S d .nil fs).nums.length = fs.nums.length := by
+  have hs := (sorted_mergeFields S d fs .nil Fields.sorted_nil).nodup
+  have hn := wfFields_nodup (wf_of_pwfFields S fs d h)
+  refine List.Perm.length_eq ((List.perm_ext_iff_of_nodup hs hn).mpr ?_)
+  intro j
+  rw [← Fields.get?_isSome_iff, ← Fields.get?_isSome_iff, get?_cloneFields S d fs h j]
+  cases hg : fs.get? j with
+  | none => simp
+  | some fv =>
+    obtain ⟨f, hf, _⟩ := pwfFields_get h hg
+    simp [hf]
+
+/-- cloning an entry message keeps its key -/
+theorem entryKey_clone (S : Schema) (ei : Nat) (e : Msg) (k : Val) (h : pwfMsg S ei e = true)
+    (hk : entryKey e = some k) (hs : k.isKey = true) : entryKey (clone S ei e) = some k := by
+  cases e with
+  | mk fs unk =>
+    rw [pwfMsg] at h
+    unfold clone
+    rw [Msg.empty, mergeMsg_mk]
+    simp only [entryKey] at hk ⊢
+    rw [get?_cloneFields S _ fs h 1]
+    split at hk
+    · rename_i v hv
+      cases hk
+      obtain ⟨f, hf, _⟩ := pwfFields_get h hv
+      simp only [hv, hf]
+      cases k with
+      | msg m => simp [Val.isKey] at hs
+      | num n => rfl
+      | bytes b => rfl
+    · cases hk
+
+/-! ### cloning a map -/
+
+/-- every entry is a keyed message whose clone keeps the key, keys pairwise distinct -/
+def EntriesOK (S : Schema) (ei : Nat) : Vals → Prop
+  | .nil => True
+  | .cons v tl => (∃ e k, v = .msg e ∧ entryKey e = some k ∧ k.isKey = true ∧
+      entryKey (clone S ei e) = some k ∧ lookupEntry tl k = none) ∧ EntriesOK S ei tl
+
+theorem entriesOK_of_pwf {S : Schema} {ei : Nat} {vs : Vals} (h : pwfEntries S ei vs = true) :
+    EntriesOK S ei vs := by
+  induction vs using Vals.ind with
+  | nil => trivial
+  | cons v tl ih =>
+    obtain ⟨e, k, hv, hk, hs, hl, hw, htl⟩ := pwfEntries_cons_msg h
+    exact ⟨⟨e, k, hv, hk, hs, entryKey_clone S ei e k hw hk hs, hl⟩, ih htl⟩
+
+theorem lookupEntry_mergeMapVals (S : Schema) (ei : Nat) (vs : Vals) : ∀ (dst : Vals),
+    EntriesOK S ei vs → ∀ k',
+    lookupEntry (mergeMapVals S ei dst vs) k' =
+      match lookupEntry vs k' with
+      | some e => some (clone S ei e)
+      | none => lookupEntry dst k' := by
+  induction vs using Vals.ind with
+  | nil => intro dst _ k'; rw [mergeMapVals]; simp [lookupEntry]
+  | cons v tl ih =>
+    intro dst h k'
+    obtain ⟨⟨e, k, rfl, hk, hs, hck, hl⟩, htl⟩ := h
+    rw [mergeMapVals_cons_msg S ei dst e tl k hk, ih _ htl k', lookupEntry_cons_msg]
+    have hck' : entryHasKey (clone S ei e) k = true := (entryHasKey_iff _ _).mpr ⟨hck, hs⟩
+    rw [lookupEntry_mapPut dst k _ hck' k']
+    have hh : entryHasKey e k' = valBEq k' k := by unfold entryHasKey; rw [hk]
+    rw [hh]
+    by_cases hb : valBEq k' k = true
+    · have := valBEq_eq hb
+      subst this
+      simp [hb, hl]
+    · simp only [hb, Bool.false_eq_true, if_false]
+
+theorem mapPut_length_of_none (vs : Vals) (k : Val) (e : Msg) (h : lookupEntry vs k = none) :
+    (mapPut vs k e).toList.length = vs.toList.length + 1 := by
+  induction vs using Vals.ind with
+  | nil => rfl
+  | cons v tl ih =>
+    cases v with
+    | msg old =>
+      rw [lookupEntry_cons_msg] at h
+      split at h
+      · cases h
+      · rename_i hne
+        rw [mapPut]
+        split
+        · rename_i k0 hk0
+          have hb : valBEq k k0 = false := by
+            unfold entryHasKey at hne
+            rw [hk0] at hne
+            simpa using hne
+          simp [hb, Vals.toList, ih h]
+        · simp [Vals.toList, ih h]
+    | num n =>
+      rw [lookupEntry_cons_num] at h
+      rw [mapPut]
+      · simp [Vals.toList, ih h]
+      · intro old hh; cases hh
+    | bytes b =>
+      rw [lookupEntry_cons_bytes] at h
+      rw [mapPut]
+      · simp [Vals.toList, ih h]
+      · intro old hh; cases hh
+
+theorem mergeMapVals_length (S : Schema) (ei : Nat) (vs : Vals) : ∀ (dst : Vals),
+    EntriesOK S ei vs → (∀ k e, lookupEntry vs k = some e → lookupEntry dst k = none) →
+    (mergeMapVals S ei dst vs).toList.length = dst.toList.length + vs.toList.length := by
+  induction vs using Vals.ind with
+  | nil => intro dst _ _; rw [mergeMapVals]; simp [Vals.toList]
+  | cons v tl ih =>
+    intro dst h hd
+    obtain ⟨⟨e, k, rfl, hk, hs, hck, hl⟩, htl⟩ := h
+    have hke : entryHasKey e k = true := (entryHasKey_iff _ _).mpr ⟨hk, hs⟩
+    have hdk : lookupEntry dst k = none := hd k e (by rw [lookupEntry_cons_msg, hke]; rfl)
+    rw [mergeMapVals_cons_msg S ei dst e tl k hk, ih _ htl, mapPut_length_of_none dst k _ hdk]
+    · simp only [Vals.toList, List.length_cons]; omega
+    · intro k' e' hl'
+      have hck' : entryHasKey (clone S ei e) k = true := (entryHasKey_iff _ _).mpr ⟨hck, hs⟩
+      rw [lookupEntry_mapPut dst k _ hck' k']
+      by_cases hb : valBEq k' k = true
+      · have := valBEq_eq hb
+        subst this
+        rw [hl] at hl'; cases hl'
+      · simp only [hb, Bool.false_eq_true, if_false]
+        apply hd k' e'
+        rw [lookupEntry_cons_msg]
+        have hh : entryHasKey e k' = valBEq k' k := by unfold entryHasKey; rw [hk]
+        rw [hh]
+        simp [hb, hl']
+
 end Pb
